@@ -1,0 +1,155 @@
+//go:build verif
+
+package kernel
+
+import (
+	"sort"
+
+	"github.com/MixinNetwork/mixin/common"
+	"github.com/MixinNetwork/mixin/crypto"
+)
+
+// Verification hooks for property C24 (retiring a local proposal never loses a pending
+// transaction). Compiled only with -tags verif.
+
+type VerifC24Snap struct {
+	Hash      crypto.Hash
+	Round     uint64
+	Timestamp uint64
+	Txs       []crypto.Hash
+}
+
+type VerifC24Agg struct {
+	Snap        int // index into the snapshots
+	Commitments int
+	Responses   int
+}
+
+type VerifC24Ver struct {
+	Key      crypto.Hash
+	Verifier int // verifier identity (index); verifier i observes snapshot VerifierSnaps[i]
+}
+
+// VerifC24 is a local Chain with hand-made CoSi bookkeeping on the node's real store, the
+// way kernel tests build one (see TestCosiRoundResetRequeuesOrphanedTransactions).
+type VerifC24 struct {
+	Chain     *Chain
+	snaps     []*common.Snapshot
+	verifiers []*CosiVerifier
+}
+
+func (node *Node) VerifC24Chain(snaps []VerifC24Snap, aggs []VerifC24Agg, verifierSnaps []int, vers []VerifC24Ver) *VerifC24 {
+	h := &VerifC24{Chain: &Chain{
+		node:            node,
+		ChainId:         node.IdForNetwork,
+		CosiAggregators: make(map[crypto.Hash]*CosiAggregator),
+		CosiVerifiers:   make(map[crypto.Hash]*CosiVerifier),
+	}}
+	for _, s := range snaps {
+		h.snaps = append(h.snaps, &common.Snapshot{
+			Version:      common.SnapshotVersionCommonEncoding,
+			NodeId:       node.IdForNetwork,
+			RoundNumber:  s.Round,
+			Timestamp:    s.Timestamp,
+			Hash:         s.Hash,
+			Transactions: append([]crypto.Hash{}, s.Txs...),
+		})
+	}
+	for _, a := range aggs {
+		agg := &CosiAggregator{
+			Snapshot:    h.snaps[a.Snap],
+			Commitments: make(map[int]*crypto.Key),
+			Responses:   make(map[int]*[32]byte),
+		}
+		for i := 0; i < a.Commitments; i++ {
+			agg.Commitments[i] = new(crypto.Key)
+		}
+		for i := 0; i < a.Responses; i++ {
+			agg.Responses[i] = new([32]byte)
+		}
+		h.Chain.CosiAggregators[agg.Snapshot.Hash] = agg
+	}
+	for _, si := range verifierSnaps {
+		h.verifiers = append(h.verifiers, &CosiVerifier{Snapshot: h.snaps[si]})
+	}
+	for _, v := range vers {
+		h.Chain.CosiVerifiers[v.Key] = h.verifiers[v.Verifier]
+	}
+	return h
+}
+
+func (h *VerifC24) Expire(now uint64)              { h.Chain.expireCosiAggregators(now) }
+func (h *VerifC24) Retry(snap int)                 { h.Chain.retryCosiSnapshot(h.snaps[snap]) }
+func (h *VerifC24) Abandon(snap int)               { h.Chain.abandonCosiSnapshot(h.snaps[snap]) }
+func (h *VerifC24) Reset(owned []crypto.Hash)      { h.Chain.resetCosiStateForNewRound(owned) }
+func (h *VerifC24) SnapshotHash(i int) crypto.Hash { return h.snaps[i].Hash }
+
+// Announce runs the real cosiSendAnnouncement for a self proposal (round, timestamp,
+// transactions) on a current round whose first finalized snapshot has timestamp cft and whose
+// round timestamp is roundTs, which is what prepareAnnouncement inspects. It reports whether
+// an aggregator was installed and the index the new snapshot got.
+func (h *VerifC24) Announce(round, timestamp, roundTs, cft uint64, txs []*common.VersionedTransaction) (bool, int, error) {
+	chain := h.Chain
+	chain.State = &ChainState{
+		CacheRound: &CacheRound{
+			NodeId:     chain.ChainId,
+			Number:     round,
+			Timestamp:  roundTs,
+			References: new(common.RoundLink),
+			Snapshots:  []*common.Snapshot{{NodeId: chain.ChainId, RoundNumber: round, Timestamp: cft}},
+		},
+		FinalRound: &FinalRound{NodeId: chain.ChainId, Number: round - 1},
+	}
+	s := &common.Snapshot{
+		Version:   common.SnapshotVersionCommonEncoding,
+		NodeId:    chain.ChainId,
+		Timestamp: timestamp,
+	}
+	found := make(map[crypto.Hash]*common.VersionedTransaction)
+	for _, tx := range txs {
+		s.AddTransaction(tx.PayloadHash())
+		found[tx.PayloadHash()] = tx
+	}
+	m := &CosiAction{
+		PeerId:   chain.ChainId,
+		Action:   CosiActionSelfEmpty,
+		Snapshot: s,
+		data:     &CosiChainData{CN: &CNode{IdForNetwork: chain.ChainId}, FoundTxs: found},
+	}
+	err := chain.cosiSendAnnouncement(m)
+	h.snaps = append(h.snaps, s)
+	_, installed := chain.CosiAggregators[s.Hash]
+	installed = installed && s.Hash.HasValue()
+	return installed, len(h.snaps) - 1, err
+}
+
+// Dump lists the aggregator keys and the verifier map (key, verifier identity), sorted by key.
+func (h *VerifC24) Dump() ([]crypto.Hash, []VerifC24Ver) {
+	var aggs []crypto.Hash
+	for k := range h.Chain.CosiAggregators {
+		aggs = append(aggs, k)
+	}
+	sort.Slice(aggs, func(i, j int) bool { return aggs[i].String() < aggs[j].String() })
+	var vers []VerifC24Ver
+	for k, v := range h.Chain.CosiVerifiers {
+		id := -1
+		for i, w := range h.verifiers {
+			if w == v {
+				id = i
+			}
+		}
+		if id < 0 {
+			h.verifiers = append(h.verifiers, v)
+			id = len(h.verifiers) - 1
+		}
+		vers = append(vers, VerifC24Ver{Key: k, Verifier: id})
+	}
+	sort.Slice(vers, func(i, j int) bool { return vers[i].Key.String() < vers[j].Key.String() })
+	return aggs, vers
+}
+
+// VerifierSnapshotHash is the hash of the snapshot verifier i observes (identities are the
+// indices Dump reports).
+func (h *VerifC24) VerifierSnapshotHash(i int) crypto.Hash {
+	return h.verifiers[i].Snapshot.Hash
+}
